@@ -436,6 +436,11 @@ func runOne(work, path string) {
 		c.Applied, c.Terms, c.Oracle = nil, nil, nil
 		runConflict(work, 0, c)
 		gen.Emit(c)
+	case "persist":
+		c := &PersistCase{}
+		_ = json.Unmarshal(raw, c)
+		runPersistCase(work, c)
+		gen.Emit(c)
 	case "batch":
 		c := &BatchCase{}
 		_ = json.Unmarshal(raw, c)
@@ -521,6 +526,20 @@ func main() {
 		c := &GroupCase{Kind: "group", Entries: n, Forced: forced}
 		runGroupCase(work, c)
 		gen.Emit(c)
+		return
+	}
+	if len(os.Args) >= 3 && os.Args[1] == "persist" {
+		n, _ := strconv.Atoi(os.Args[2])
+		r := gen.FromEnv(57)
+		for _, c := range corpusPersist() {
+			runPersistCase(work, c)
+			gen.Emit(c)
+		}
+		for i := 0; i < n; i++ {
+			c := genPersist(r.Fork())
+			runPersistCase(work, c)
+			gen.Emit(c)
+		}
 		return
 	}
 	if len(os.Args) >= 3 && os.Args[1] == "send" {
